@@ -7,7 +7,8 @@ setdefault, minKey/maxKey with bound, range search, update, in-place
 operators, module-level set algebra, constructor from an iterable, conflict
 merge) is first executed on an identically rebuilt copy to count its key
 comparisons c, and then on fresh copies with the fault `cmp-raise` at
-comparison index n (quick: up to 3 sampled n; thorough: every n <= c).
+every comparison index n <= c (fault enumeration over the placement; the
+histories and operations are sampled).
 
 Oracle after each faulted execution:
   * SimCompareError (that very class) reaches the caller;
@@ -32,11 +33,11 @@ from . import common
 
 PROP = "C14"
 SHRINK = [["build"], ["follow"]]
-BUDGET = {"quick": {"plain": 9000, "asan": 1500, "max_s": 110},
+BUDGET = {"quick": {"plain": 6000, "asan": 1200, "max_s": 110},
           "thorough": {"plain": 250000, "asan": 50000, "max_s": 1500}}
 RULE = ("one run = one seeded shape + one seeded operation, executed once to "
         "count its c key comparisons and then on fresh copies with the n-th "
-        "comparison raising (quick: <=3 sampled n, thorough: all n<=c); "
+        "comparison raising, for every n<=c (capped at 48); "
         "distinct non-trivial = distinct (impl, kind, operation, comparison "
         "site class (position of n in the operation: first / inner / last, "
         "tree height), contents outcome (old / completed / mixed)) tuples "
@@ -51,12 +52,12 @@ LEVEL_TEXT = ("Seeded shapes (object-key families, 4 kinds, both "
               "(lookup, insert, replace, delete, setdefault, bounded "
               "minKey/maxKey, range search, update, in-place operators, set "
               "algebra, constructor, conflict merge) x comparison index n "
-              "(sampled in quick, enumerated in thorough): the injected "
+              "(enumerated): the injected "
               "exception must reach the caller, the container must stay "
               "sound with old-or-completed contents, keep working, and (C) "
               "hold exactly one reference per stored key/value; also on the "
               "ASan+UBSan build.")
-LEVEL = {"quick": "exploration", "thorough": "fault_enumeration"}
+LEVEL = {"quick": "fault_enumeration", "thorough": "fault_enumeration"}
 
 BULK = ("update", "supdate", "ior", "iand", "isub", "ixor")
 READONLY = ("get", "getd", "getitem", "in", "has_key", "minKey", "maxKey",
@@ -117,7 +118,7 @@ def plan(rng, tier):
     follow = [g.op() for _ in range(rng.randint(4, 12))]
     return {"cfg": cfg, "build": build, "op": op, "follow": follow,
             "idx": [rng.randrange(1 << 16) for _ in range(3)],
-            "_all": tier == "thorough"}
+            "_all": True}
 
 
 def simplify(plan):
@@ -450,8 +451,15 @@ def execute(plan, ctx):
             ctx.probe("no-comparisons")
             return
         tier_all = plan.get("_all")
-        idxs = range(1, ncmp + 1) if tier_all else sorted(
-            set(1 + x % ncmp for x in plan["idx"]))
+        # every comparison index of the operation (up to 48; beyond that
+        # the first 24, the last 8 and the planned ones)
+        if tier_all and ncmp <= 48:
+            idxs = range(1, ncmp + 1)
+        elif tier_all:
+            idxs = sorted(set(range(1, 25)) | set(range(ncmp - 7, ncmp + 1))
+                          | set(1 + x % ncmp for x in plan["idx"]))
+        else:
+            idxs = sorted(set(1 + x % ncmp for x in plan["idx"]))
         for n in idxs:
             _one(plan, dom, cfg, ctx, n, ncmp, L0, L1, baseline, tracked,
                  h, base)
